@@ -286,16 +286,6 @@ class Screen(BaseScreen, RealTerminal):
         self._wait_for_input_ready(self._next_timeout)
         keys, raw = self.parse_input(None, None, self.get_available_raw_input())
 
-        while self._partial_codes:
-            # an incomplete sequence and no event loop to set an alarm on: give the rest complete_wait
-            # to arrive here; decode what there is as it stands only when nothing more came
-            pending = len(self._partial_codes)
-            self._wait_for_input_ready(self.complete_wait)
-            codes = self.get_available_raw_input()
-            new_keys, new_raw = self.parse_input(None, None, codes, wait_for_more=len(codes) > pending)
-            keys += new_keys
-            raw += new_raw
-
         # Avoid pegging CPU at 100% when slowly resizing
         if keys == ["window resize"] and self.prev_input_resize:
             logger.debug('get_input: got "window resize" > 1 times. Enable throttling for resize.')
@@ -309,6 +299,16 @@ class Screen(BaseScreen, RealTerminal):
                     else:
                         keys.extend(new_keys)
                     break
+
+        while self._partial_codes:
+            # an incomplete sequence (also one the resize throttling above read) and no event loop to set an alarm on: give the rest complete_wait
+            # to arrive here; decode what there is as it stands only when nothing more came
+            pending = len(self._partial_codes)
+            self._wait_for_input_ready(self.complete_wait)
+            codes = self.get_available_raw_input()
+            new_keys, new_raw = self.parse_input(None, None, codes, wait_for_more=len(codes) > pending)
+            keys += new_keys
+            raw += new_raw
 
         if keys == ["window resize"]:
             self.prev_input_resize = 2
